@@ -159,12 +159,7 @@ func c18ReadGeom(size int64) {
 	vp.Unwind(20)
 	vp.AllocCap(vp.Bound("alloccap", 48, 96))
 	vp.AllocLimit(limit)
-	spf := uint32(dev.ByteAt(36)) | uint32(dev.ByteAt(37))<<8 | uint32(dev.ByteAt(38))<<16 | uint32(dev.ByteAt(39))<<24
-	bps := uint32(dev.ByteAt(11)) | uint32(dev.ByteAt(12))<<8
-	if spf*bps < 8 {
-		// KF-C18-7: a FAT shorter than its two reserved entries (e.g. sectorsPerFat = 0)
-		vp.KnownPanic("KF-C18-7", "fat32.tableFromBytes) | slice bounds out of range")
-	}
+	// (KF-C18-7, a FAT shorter than its two reserved entries, is no longer reachable through Read since 03e3555)
 	vp.NoPanic()
 	t0 := c18AllocBegin()
 	fs, err := Read(dev, size, 0, 512)
